@@ -16,4 +16,4 @@ def replay(ctx, rec):
     return layout_engine.replay(ctx, 'C12', rec)
 
 
-CLAIM = {'text': 'PARTIAL, two known findings. The full statement (C12_full) is REFUTED on the faithful model and on the real assembler by two independent families: K1 (C12_refuted: an align between a transfer and its target absorbs what compression saves) and K2 (C12_refuted_label_arithmetic: the absolute value of a label inside a non-transfer immediate at the edge of its range; not repairable). Proved (C12_*_partial): whenever the generated selection picks a rule the generated c.* encoder ACCEPTS the constructed operands (all spellings, all integers) -- so compression cannot introduce an encode failure on a settled immediate; rules and the li size decision are consulted only on settled values (label-free, not position-relative) or jump-to-label distances. Missing: monotonicity of label distances after the decision and the whole-program induction; the full statement is decided by the falsifier: every generated program that assembles without -c must assemble with it (scenarios: constants/aliases as shift amounts, label-dependent immediates at RVC edges, far call/tail in every low-12-bit band, constants as jump targets, explicit %offset in non-jump instructions, li of position-relative values). The proof attempt exposed D18/D19 (position-relative decisions), re-found by the check and fixed in /repo.', 'note': 'Trusted: as C04. The theorem level reached is per-rule acceptance + decision stability, not the whole-program implication.', 'technique': 'Coq proof of per-rule acceptance (sweeps) and decision stability; two-mode differential falsifier', 'design': '6/C12'}
+CLAIM = {'text': 'PARTIAL, two known findings. The full statement (C12_full) is REFUTED on the faithful model and on the real assembler by two independent families: K1 (C12_refuted: an align between a transfer and its target absorbs what compression saves) and K2 (C12_refuted_label_arithmetic: the absolute value of a label inside a non-transfer immediate at the edge of its range; not repairable). Proved: C12_no_align_labels_never_apart -- in a program without align directives compression never moves two labels apart (so K1 needs the align); and (C12_*_partial): whenever the generated selection picks a rule the generated c.* encoder ACCEPTS the constructed operands (all spellings, all integers) -- so compression cannot introduce an encode failure on a settled immediate; rules and the li size decision are consulted only on settled values (label-free, not position-relative) or jump-to-label distances. Missing: monotonicity of label distances after the decision and the whole-program induction; the full statement is decided by the falsifier: every generated program that assembles without -c must assemble with it (scenarios: constants/aliases as shift amounts, label-dependent immediates at RVC edges, far call/tail in every low-12-bit band, constants as jump targets, explicit %offset in non-jump instructions, li of position-relative values). The proof attempt exposed D18/D19 (position-relative decisions), re-found by the check and fixed in /repo.', 'note': 'Trusted: as C04. The theorem level reached is per-rule acceptance + decision stability, not the whole-program implication.', 'technique': 'Coq proof of per-rule acceptance (sweeps) and decision stability; two-mode differential falsifier', 'design': '6/C12'}
